@@ -181,7 +181,25 @@ def run_count_total(sx, n):
     return "ok"
 
 
+def _invert_params(sx, kw, tag):
+    """Chop.invert() describes the same cells seen from the other end: start and end size swapped, both expansions
+    reciprocal, count and length ratio kept. (Together with the per-pair obligations - each pair's calculation is right
+    on its own domain - this covers reversal for the pairs whose reversed calculation the solver cannot decide directly.)"""
+    ch = Chop(**kw)
+    ch.invert()
+    want = {"start_size": kw.get("end_size"), "end_size": kw.get("start_size"), "count": kw.get("count"),
+            "c2c_expansion": None if kw.get("c2c_expansion") is None else 1 / kw["c2c_expansion"],
+            "total_expansion": None if kw.get("total_expansion") is None else 1 / kw["total_expansion"]}
+    conds = []
+    for field, w in want.items():
+        got = getattr(ch, field)
+        conds.append(got is None if w is None else (got is not None and sx.close(got, w, 1e-12)))
+    sx.prove(sx.all(conds), f"{tag}: invert() swaps start and end size, makes both expansions reciprocal and keeps the count",
+             f"C03:{tag.split(':')[0]}:invert-params", info={"given": sorted(kw)})
+
+
 def _invert_check(sx, L, kw, cnt, T, tag, given=True):
+    _invert_params(sx, kw, tag)
     ch = Chop(**kw)
     ch.invert()
     from symx.core import NaNProduced
@@ -245,6 +263,7 @@ def run_size_c2c(sx, which, side):
              f"C03:{which}+c2c:never-coarser:{side}")
     sx.prove(sx.any([n <= 1, real_n1 >= s * sx.const(1 - 1e-9)]), f"{which} & c2c ({side}): with one cell fewer it would be coarser",
              f"C03:{which}+c2c:one-fewer:{side}")
+    _invert_params(sx, kw, f"{which}+c2c:{side}")
     return "ok"
 
 
@@ -272,6 +291,7 @@ def run_c2c_total(sx, side):
         ok = sx.all([P1 >= T0 * sx.const(1 - 1e-9), T0 >= P * sx.const(1 - 1e-9)])
     sx.prove(ok, "count is the rounding of log(total)/log(c2c): c2c**(n-1) <= total < c2c**n (mirrored below 1)",
              f"C03:c2c+total:rounding:{side}")
+    _invert_check(sx, L, dict(c2c_expansion=c, total_expansion=T0), n, T, f"c2c+total:{side}")
     return "ok"
 
 
@@ -296,6 +316,7 @@ def run_two_sizes(sx, pair):
     sx.prove(n >= 1, f"{pair}: count >= 1", f"C03:{pair}:count-positive")
     sx.prove(sx.all([T > 0, sx.close(T, want_T, 1e-9)]), f"{pair}: total expansion is positive and the given/implied one",
              f"C03:{pair}:total")
+    _invert_params(sx, kw, pair)
     return "ok"
 
 
